@@ -469,3 +469,231 @@ def install_blocks():
     kernel.install_function(api, "simplify", label="simplify", post=_post_simplify, on_raise=_raise_simplify)
     kernel.install_function(api, "do_counterfactual_factor_factorization", label="do_counterfactual_factor_factorization",
                             post=_post_factorization, on_raise=_raise_factorization)
+
+
+# ---------------------------------------------------------------------------------------
+# C09: ctfTRu / ctfTR
+
+
+def domain_json(graph, topo, policy, population):
+    from y0.algorithm.transport import is_transport_node
+
+    regular = [n for n in graph.nodes() if not is_transport_node(n)]
+    return {"transport": sorted(n.name[2:] for n in graph.nodes() if is_transport_node(n)),
+            "policy": sorted(v.name for v in policy), "population": str(population.population),
+            "graph": {"nodes": sorted(n.name for n in regular),
+                      "di": sorted([u.name, v.name] for u, v in graph.directed.edges() if not is_transport_node(u)),
+                      "bi": sorted(sorted([u.name, v.name]) for u, v in graph.undirected.edges())},
+            "topo": [n.name for n in topo]}
+
+
+def _family_fn(ref, doms):
+    def fam(h, m):
+        rng = random.Random("ctf-fam:" + h)
+        out = {TARGET: m}
+        for d in doms:
+            if d["population"] == TARGET:
+                continue
+            out[d["population"]] = m.redraw(sorted(d["transport"]), rng, cut_parents=sorted(d["policy"]))
+        return out
+
+    return fam
+
+
+def _domains_follow_convention(ref: RG, doms) -> bool:
+    """Each domain graph = target graph minus the edges into / bidirected edges at its policy variables."""
+    g = _names_rg(ref)
+    for d in doms:
+        Z = set(d["policy"])
+        want_di = sorted([u, v] for u, v in g.D if v not in Z)
+        want_bi = sorted(sorted(e) for e in g.B if len(e) == 2 and not (set(e) & Z))
+        if d["graph"]["di"] != want_di or d["graph"]["bi"] != want_bi or set(d["graph"]["nodes"]) != set(g.V):
+            return False
+        if d["population"] == TARGET and (Z or d["transport"]):
+            return False
+    return True
+
+
+def _candidates(query_ev, returned_ev):
+    """pseudo-conjuncts [name, [], value] for every value a base name is given: by the returned event, by the
+    subscripts of the returned event's variables and by the subscripts of the queried event."""
+    out = []
+    for n, w, v in returned_ev:
+        if v is not None:
+            out.append([n, [], v])
+        out.extend([i, [], s] for i, s in w)
+    for n, w, v in query_ev:
+        out.extend([i, [], s] for i, s in w)
+    return out
+
+
+def _judge_ctf(label, snap, res, exc):
+    from y0.dsl import Expression
+
+    ref, doms = snap["ref"], snap["domains"]
+    out_ev, cond_ev = snap["outcomes"], snap["conditions"]
+    case = {"graph": gd_of(ref), "outcomes": out_ev, "conditions": cond_ev, "domains": doms, "op": label}
+    if not snap["valid"]:
+        kernel.count("C09:rejected-by-own-validation")
+        return
+    if not _domains_follow_convention(ref, doms):
+        kernel.count("C09:domain-graphs-outside-convention-skipped")
+        return
+    query = out_ev + cond_ev
+    g = _names_rg(ref)
+    valued = [c for c in query if c[2] is not None]
+    anc_union = set()
+    for c in query:
+        anc_union |= ref_ancestors(g, c[0], c[1])
+    same_base = len({(c[0], tuple(map(tuple, c[1]))) for c in query}) != len({c[0] for c in query}) or \
+        len({a[0] for a in anc_union}) < len(anc_union)
+    observed = {c[0]: c[2] for c in valued if c[0] not in {i for i, _ in c[1]}}
+    two_values = any(i in observed and bool(observed[i]) != bool(s) for c in query for i, s in c[1]) or \
+        len({(i, bool(s)) for c in query for i, s in c[1]}) != len({i for c in query for i, _ in c[1]})
+    summed = {a[0] for a in anc_union} - {c[0] for c in query}
+    if label == "ctfTR":
+        summed |= {c[0] for c in out_ev}  # the conditional procedure normalises by summing over the outcome variables
+    captured = bool(summed & {i for c in query for i, _ in c[1]})
+    reflexive = any(c[0] in {i for i, _ in c[1]} for c in query)
+
+    nonminimal = any(c[1] and ref_minimal_subscripts(g, c[0], c[1]) != sorted([i, bool(s)] for i, s in c[1]) for c in query)
+
+    detached_condition = False
+    if label == "ctfTR" and cond_ev:
+        try:
+            comps = ref_ancestral_components(g, [[c[0], c[1]] for c in cond_ev], [[c[0], c[1]] for c in query])
+            out_names = {c[0] for c in out_ev}
+            for comp in comps:
+                names_c = {x[0] for x in comp}
+                if not (names_c & out_names) and (names_c & {c[0] for c in cond_ev}):
+                    detached_condition = True
+        except Exception:  # noqa: BLE001
+            pass
+
+    def mech(kind):
+        if reflexive:
+            return "ctf.reflexive-event-variable"
+        if kind == "raise" and detached_condition:
+            return "ctfTR.condition-outside-the-outcomes-ancestral-components"
+        if kind == "raise" and label == "ctfTR" and nonminimal:
+            return "ctfTR.nonminimal-variable-not-found-in-its-ancestral-component"
+        if same_base:
+            return "ctf.same-base-twice"
+        if two_values or captured:
+            return "ctf.one-name-two-values"
+        return None
+
+    if exc is not None:
+        kernel.violation("C09", "total", f"{label} raised {type(exc).__name__}: {str(exc)[:300]} on an input that passes its own "
+                         f"validation: {case}", case=case, mech=mech("raise"))
+        return
+    if res is None:
+        kernel.count("C09:fail-answers")
+        return
+    expr, revent = res.expression, res.event
+    if not isinstance(expr, Expression):
+        kernel.violation("C09", "total", f"{label} returned {type(expr).__name__} as expression", case=case)
+        return
+    kernel.count("C09:answers")
+    returned = gev.from_event(revent) if revent is not None else []
+    value_ev = _candidates(valued, returned)
+
+    def truth(m, rv, av, zero_check=False):
+        pc = event_prob(m, [c for c in cond_ev if c[2] is not None], rv, av) if cond_ev else Fraction(1)
+        if zero_check:
+            return event_prob(m, valued, rv, av)
+        if pc == 0:
+            return None
+        return event_prob(m, valued, rv, av) / pc
+
+    from .denote import leaves
+
+    try:
+        if any(str(getattr(l, "population", TARGET)) != TARGET for l in leaves(expr)):
+            kernel.count("C09:answers-using-a-source-domain")
+    except TypeError:
+        pass
+    tag = f"{label}|{sorted(map(str, ref.D))}|{sorted(sorted(map(str, e)) for e in ref.B)}|{[(d['population'], d['transport'], d['policy']) for d in doms]}"
+    judge_expression("C09", label, expr, ref, value_ev, truth, _family_fn(ref, doms), tag, case, mech,
+                     modes=("bound-env-literal",))
+
+
+def _snap_ctf(label, event, outcomes, conditions, target_domain_graph, domain_graphs, domain_data):
+    import y0.algorithm.counterfactual_transport.api as api
+
+    ref = RG.from_nx(target_domain_graph)
+    valid = True
+    try:
+        if label == "ctfTRu":
+            v = api._validate_transport_unconditional_counterfactual_query_input
+            v = getattr(v, "__vmon_original__", v)
+            v(event=event, target_domain_graph=target_domain_graph, domain_graphs=domain_graphs, domain_data=domain_data)
+        else:
+            v = api._validate_transport_conditional_counterfactual_query_input
+            v = getattr(v, "__vmon_original__", v)
+            v(outcomes=outcomes, conditions=conditions, target_domain_graph=target_domain_graph,
+              domain_graphs=domain_graphs, domain_data=domain_data)
+    except Exception:  # noqa: BLE001
+        valid = False
+    doms = []
+    if valid:
+        for (g, topo), (policy, pp) in zip(domain_graphs, domain_data):
+            doms.append(domain_json(g, topo, policy, pp))
+    try:
+        out_ev = gev.from_event(event if label == "ctfTRu" else outcomes)
+        cond_ev = [] if label == "ctfTRu" else gev.from_event(conditions)
+    except Exception:  # noqa: BLE001
+        valid, out_ev, cond_ev = False, [], []
+    return {"ref": ref, "valid": valid, "domains": doms, "outcomes": out_ev, "conditions": cond_ev}
+
+
+_ctf_depth = {"n": 0}
+
+
+def _pre_ctfu(*, event, target_domain_graph, domain_graphs, domain_data):
+    _ctf_depth["n"] += 1
+    if _ctf_depth["n"] > 1:
+        return None
+    return _snap_ctf("ctfTRu", event, None, None, target_domain_graph, domain_graphs, domain_data)
+
+
+def _post_ctfu(snap, res, **kw):
+    _ctf_depth["n"] -= 1
+    if snap is not None:
+        _judge_ctf("ctfTRu", snap, res, None)
+
+
+def _raise_ctfu(snap, exc, **kw):
+    _ctf_depth["n"] -= 1
+    if snap is not None:
+        _judge_ctf("ctfTRu", snap, None, exc)
+
+
+def _pre_ctfc(*, outcomes, conditions, target_domain_graph, domain_graphs, domain_data):
+    _ctf_depth["n"] += 1
+    if _ctf_depth["n"] > 1:
+        return None
+    return _snap_ctf("ctfTR", None, outcomes, conditions, target_domain_graph, domain_graphs, domain_data)
+
+
+def _post_ctfc(snap, res, **kw):
+    _ctf_depth["n"] -= 1
+    if snap is not None:
+        _judge_ctf("ctfTR", snap, res, None)
+
+
+def _raise_ctfc(snap, exc, **kw):
+    _ctf_depth["n"] -= 1
+    if snap is not None:
+        _judge_ctf("ctfTR", snap, None, exc)
+
+
+def install_ctf():
+    import y0.algorithm.counterfactual_transport.api as api
+
+    install_blocks()
+    kernel.install_function(api, "transport_unconditional_counterfactual_query", label="ctfTRu", pre=_pre_ctfu,
+                            post=_post_ctfu, on_raise=_raise_ctfu)
+    kernel.install_function(api, "transport_conditional_counterfactual_query", label="ctfTR", pre=_pre_ctfc,
+                            post=_post_ctfc, on_raise=_raise_ctfc)
+    kernel.install_function(api, "transport_district_intervening_on_parents", label="sigma_TR")
